@@ -35,7 +35,7 @@ TIERS = {
                       ef0="full", ef1="full", ef2="full", ef3="s12", ef4="s8")),
     ],
 }
-DEADLINE = {"quick": 200, "thorough": 2100}
+DEADLINE = {"quick": 165, "thorough": 2000}
 
 
 def gen_dir():
